@@ -87,7 +87,7 @@ Definition pub_try (m : mode) (s : pubstate) (len : Z) (act : log -> Z -> Z -> o
   | _ => (s, Panic)
   end.
 
-Definition pub_offer (m : mode) (rv : Z -> Z -> Z) (s : pubstate) (msg : list Z) : pubstate * outcome Z :=
+Definition pub_offer (m : mode) (rv : Z -> Z -> list Z -> Z) (s : pubstate) (msg : list Z) : pubstate * outcome Z :=
   let len := zlen msg in
   pub_try m s len (fun l idx tid =>
     if len <=? max_payload_length l then ta_append_unfragmented m rv l idx msg tid
@@ -98,7 +98,7 @@ Definition pub_claim (m : mode) (s : pubstate) (len : Z) : pubstate * outcome Z 
   if max_payload_length (ps_log s) <? len then (s, Err TooLong)       (* check_payload_length comes first *)
   else pub_try m s len (fun l idx tid => ta_claim m l idx len tid).
 
-Definition pub_bulk (m : mode) (rv : Z -> Z -> Z) (s : pubstate) (bufs : list (list Z)) : pubstate * outcome Z :=
+Definition pub_bulk (m : mode) (rv : Z -> Z -> list Z -> Z) (s : pubstate) (bufs : list (list Z)) : pubstate * outcome Z :=
   match sum_caps m bufs with
   | Ok len =>
       if len =? 2147483647 then (s, Err IllegalState)
@@ -140,7 +140,7 @@ Definition env_step (s : pubstate) (o : op) : pubstate * outcome Z :=
   | _ => (s, Ok 0)
   end.
 
-Definition pub_step (m : mode) (rv : Z -> Z -> Z) (s : pubstate) (o : op) : pubstate * outcome Z :=
+Definition pub_step (m : mode) (rv : Z -> Z -> list Z -> Z) (s : pubstate) (o : op) : pubstate * outcome Z :=
   match o with
   | Offer msg => pub_offer m rv s msg
   | Claim len => pub_claim m s len
@@ -158,16 +158,19 @@ Definition pub_position (m : mode) (s : pubstate) : outcome Z :=
 Definition pub_init (l : log) : pubstate := mkPub l false None.
 
 (* a history: the states and results it goes through *)
-Fixpoint pub_run (m : mode) (rv : Z -> Z -> Z) (s : pubstate) (ops : list op) : pubstate :=
+Fixpoint pub_run (m : mode) (rv : Z -> Z -> list Z -> Z) (s : pubstate) (ops : list op) : pubstate :=
   match ops with [] => s | o :: r => pub_run m rv (fst (pub_step m rv s o)) r end.
 
 (* what the harness prints after every operation: (result, (count, raw tails, changed words of the 3 partitions), position()) *)
 Definition pub_obs (m : mode) (s s' : pubstate) (r : outcome Z) := (r, log_delta (ps_log s) (ps_log s'), pub_position m s').
-Fixpoint pub_trace (m : mode) (rv : Z -> Z -> Z) (s : pubstate) (ops : list op) :=
+Fixpoint pub_trace (m : mode) (rv : Z -> Z -> list Z -> Z) (s : pubstate) (ops : list op) :=
   match ops with
   | [] => []
   | o :: r => let '(s', res) := pub_step m rv s o in pub_obs m s s' res :: pub_trace m rv s' r
   end.
 
-(* reserved-value supplier of the harness: a function of (term offset, frame length) *)
-Definition harness_rv (off flen : Z) : Z := off * 1000003 + flen * 7 + 1.
+(* reserved-value supplier of the harness: reads the frame it is handed - a position-weighted checksum over the payload
+   bytes [offset + 32, offset + frame_length) of the term buffer - plus term offset and frame length *)
+Fixpoint checksum_from (i : Z) (bs : list Z) : Z :=
+  match bs with [] => 0 | b :: r => i * b + checksum_from (i + 1) r end.
+Definition harness_rv (off flen : Z) (body : list Z) : Z := off * 1000003 + flen * 7 + 1 + checksum_from 1 body.
